@@ -454,6 +454,22 @@ def _filters(rng, b):
                 fl.append("uuid~=~s:" + lst[0])
             else:
                 fl.append("uuid~in~" + _operand(rng, lst))
+    # intersections that become empty before the last uuid filter (an empty list, or disjoint filters, followed by
+    # further non-empty uuid filters), at any position
+    r = rng.random()
+    if r < 0.06:
+        fl.insert(rng.randint(0, len(fl)), rng.choice(["uuid~in~i:", "uuid~in~t:", "uuid~in~i:#7"]))
+    elif r < 0.12 and len(set(req)) >= 2:
+        us = sorted(set(req))
+        rng.shuffle(us)
+        k = rng.randint(1, len(us) - 1)
+        a, b = us[:k], us[k:]
+        pos = rng.randint(0, len(fl))
+        fa = "uuid~=~s:" + a[0] if len(a) == 1 and rng.random() < 0.5 else "uuid~in~" + _operand(rng, a)
+        fb = "uuid~=~s:" + b[0] if len(b) == 1 and rng.random() < 0.5 else "uuid~in~" + _operand(rng, b)
+        fl[pos:pos] = [fa, fb]
+    elif r < 0.15:
+        fl.insert(rng.randint(0, len(fl)), "uuid~=~s:" + _uuid(rng, rng.choice([b["local"]] + b["known"] + ["ggggg"]), kind))
     return fl
 
 
@@ -626,6 +642,20 @@ def _exhaustive(rng):
                             for mx in (len(req), len(req) - 1):
                                 sc = {"aaaaa": [act] * 3, "bbbbb": [act] * 4}
                                 out.append(_fmt("coll", "aaaaa", mx, ["bbbbb"], opts, fl, world, sc))
+    # every sequence of 1-3 uuid filters over the subsets of three uuids (local a, remote b1, b2), all objects existing
+    u3 = [la[0], lb[0], lb[1]]
+    world = [(u, ts[u]) for u in u3]
+    subsets = [[u for i, u in enumerate(u3) if m >> i & 1] for m in range(8)]
+
+    def flt(sub, form):
+        if form == "=" and len(sub) == 1:
+            return "uuid~=~s:" + sub[0]
+        return ("uuid~in~t:" if form == "t" else "uuid~in~i:") + ",".join(sub)
+    for n in (1, 2, 3):
+        for seq in itertools.product(range(8), repeat=n):
+            form = "ti="[sum(seq) % 3]
+            fl = [flt(subsets[m], form) for m in seq]
+            out.append(_fmt("coll", "aaaaa", 10, ["bbbbb"], opts, fl, world, {"bbbbb": ["p1.f"] * 3}))
     return out
 
 
